@@ -1285,13 +1285,15 @@ theorem pdf_boxes (w h : Rat) (b : Bleed) (zoom : Rat) :
       ⟨-(scaleOf zoom * b.left), -(scaleOf zoom * b.top), scaleOf zoom * (w + b.right), scaleOf zoom * (h + b.bottom)⟩ := by
   constructor <;> simp [pageBoxes, Rect.mk.injEq] <;> grind
 
+/-- BleedBox lies between TrimBox and MediaBox, at most `10 · zoom` points outside the TrimBox (the cap
+scales with zoom like every other coordinate: repaired by d924a7c, before it was the constant 10). -/
 theorem bleed_box_between (w h : Rat) (b : Bleed) (zoom : Rat) (hz : 0 ≤ zoom)
     (hb : 0 ≤ b.top ∧ 0 ≤ b.right ∧ 0 ≤ b.bottom ∧ 0 ≤ b.left) :
     let bx := pageBoxes w h b zoom
-    bx.media.x0 ≤ bx.bleed.x0 ∧ bx.bleed.x0 ≤ bx.trim.x0 ∧ bx.trim.x0 - bx.bleed.x0 ≤ 10 ∧
-    bx.media.y0 ≤ bx.bleed.y0 ∧ bx.bleed.y0 ≤ bx.trim.y0 ∧ bx.trim.y0 - bx.bleed.y0 ≤ 10 ∧
-    bx.trim.x1 ≤ bx.bleed.x1 ∧ bx.bleed.x1 ≤ bx.media.x1 ∧ bx.bleed.x1 - bx.trim.x1 ≤ 10 ∧
-    bx.trim.y1 ≤ bx.bleed.y1 ∧ bx.bleed.y1 ≤ bx.media.y1 ∧ bx.bleed.y1 - bx.trim.y1 ≤ 10 := by
+    bx.media.x0 ≤ bx.bleed.x0 ∧ bx.bleed.x0 ≤ bx.trim.x0 ∧ bx.trim.x0 - bx.bleed.x0 ≤ 10 * zoom ∧
+    bx.media.y0 ≤ bx.bleed.y0 ∧ bx.bleed.y0 ≤ bx.trim.y0 ∧ bx.trim.y0 - bx.bleed.y0 ≤ 10 * zoom ∧
+    bx.trim.x1 ≤ bx.bleed.x1 ∧ bx.bleed.x1 ≤ bx.media.x1 ∧ bx.bleed.x1 - bx.trim.x1 ≤ 10 * zoom ∧
+    bx.trim.y1 ≤ bx.bleed.y1 ∧ bx.bleed.y1 ≤ bx.media.y1 ∧ bx.bleed.y1 - bx.trim.y1 ≤ 10 * zoom := by
   have hs : 0 ≤ scaleOf zoom := by unfold scaleOf; exact Rat.mul_nonneg hz (by grind)
   have h1 := Rat.mul_nonneg hb.1 hs
   have h2 := Rat.mul_nonneg hb.2.1 hs
@@ -1299,6 +1301,53 @@ theorem bleed_box_between (w h : Rat) (b : Bleed) (zoom : Rat) (hz : 0 ≤ zoom)
   have h4 := Rat.mul_nonneg hb.2.2.2 hs
   simp only [pageBoxes]
   refine ⟨?_, ?_, ?_, ?_, ?_, ?_, ?_, ?_, ?_, ?_, ?_, ?_⟩ <;> grind
+
+/-- The BleedBox exactly: each edge is `min (10 · zoom) (bleed · scale)` outside the TrimBox. -/
+theorem bleed_box_exact (w h : Rat) (b : Bleed) (zoom : Rat) :
+    let bx := pageBoxes w h b zoom
+    let s := scaleOf zoom
+    bx.bleed = ⟨bx.trim.x0 - min (10 * zoom) (b.left * s), bx.trim.y0 - min (10 * zoom) (b.top * s),
+                bx.trim.x1 + min (10 * zoom) (b.right * s), bx.trim.y1 + min (10 * zoom) (b.bottom * s)⟩ := by
+  simp only [pageBoxes]
+
+private theorem min_mul_nonneg (k x y : Rat) (hk : 0 ≤ k) : min (k * x) (k * y) = k * min x y := by
+  by_cases hxy : x ≤ y
+  · have : k * x ≤ k * y := Rat.mul_le_mul_of_nonneg_left hxy hk
+    rw [Rat.min_def, Rat.min_def]; simp [hxy, this]
+  · have hyx : y ≤ x := Rat.le_of_lt (Rat.not_le.mp hxy)
+    have h2 : k * y ≤ k * x := Rat.mul_le_mul_of_nonneg_left hyx hk
+    rw [Rat.min_def, Rat.min_def]
+    by_cases h3 : k * x ≤ k * y
+    · have : k * x = k * y := Rat.le_antisymm h3 h2
+      simp [hxy, h3, this]
+    · simp [hxy, h3]
+
+/-- **Zoom is a uniform scale of all three PDF page boxes** (full strength since repair d924a7c; before,
+the constant 10pt cap of the BleedBox broke it — C19 finding `bleedbox-cap-not-zoomed`): the boxes at zoom
+`k · zoom` are `k` times the boxes at `zoom`, for every `k ≥ 0`. -/
+theorem page_boxes_zoom_homogeneous (w h : Rat) (b : Bleed) (zoom k : Rat) (hk : 0 ≤ k) :
+    (pageBoxes w h b (k * zoom)).media = (pageBoxes w h b zoom).media.scale k ∧
+    (pageBoxes w h b (k * zoom)).trim = (pageBoxes w h b zoom).trim.scale k ∧
+    (pageBoxes w h b (k * zoom)).bleed = (pageBoxes w h b zoom).bleed.scale k := by
+  have hm : ∀ x : Rat, min (10 * (k * zoom)) (x * scaleOf (k * zoom)) = k * min (10 * zoom) (x * scaleOf zoom) := by
+    intro x
+    rw [← min_mul_nonneg k _ _ hk]
+    congr 1
+    · grind
+    · unfold scaleOf; grind
+  refine ⟨?_, ?_, ?_⟩
+  · simp only [pageBoxes, Rect.scale, Rect.mk.injEq, scaleOf]
+    refine ⟨?_, ?_, ?_, ?_⟩ <;> grind
+  · simp only [pageBoxes, Rect.scale, Rect.mk.injEq, scaleOf]
+    refine ⟨?_, ?_, ?_, ?_⟩ <;> grind
+  · simp only [pageBoxes, Rect.scale, Rect.mk.injEq, hm]
+    simp only [scaleOf]
+    refine ⟨?_, ?_, ?_, ?_⟩ <;> grind
+
+/-- Regression case of the repaired cap: `@page { size: 100px; bleed: 20px }` — BleedBox `[-10 -10 85 85]`
+at zoom 1 and exactly twice that at zoom 2 (it was `[-10 -10 160 160]` before d924a7c). -/
+example : (pageBoxes 100 100 ⟨20, 20, 20, 20⟩ 1).bleed = ⟨-10, -10, 85, 85⟩ ∧
+    (pageBoxes 100 100 ⟨20, 20, 20, 20⟩ 2).bleed = ⟨-20, -20, 170, 170⟩ := by decide +kernel
 
 example : getStringFor [(1, ["a", "b"]), (3, ["c"])] 2 .first [] = .ok (some "b") := by
   simp [getStringFor, storeGet, searchBack]
@@ -1700,7 +1749,7 @@ private theorem parseOuter_sound (fuel : Nat) (toks : List Tok) (acc res : List 
          else if tokens.isEmpty then .ok (acc ++ [types])
          else match parseInner tokens types with
            | .reject => .reject
-           | .raised => .raised
+           | .raised cls => .raised cls
            | .ok (types, rest) =>
              if rest.isEmpty then .ok (acc ++ [types]) else parseOuter fuel rest (acc ++ [types])) = .ok res →
         ∀ s ∈ res, SpecSound s := by
@@ -1954,14 +2003,14 @@ theorem parse_fuel_irrelevant (f1 f2 : Nat) (toks : List Tok) (acc : List Sel)
            else if tokens.isEmpty then .ok (acc ++ [types])
            else match parseInner tokens types with
              | .reject => .reject
-             | .raised => .raised
+             | .raised cls => .raised cls
              | .ok (types, rest) =>
                if rest.isEmpty then .ok (acc ++ [types]) else parseOuter k rest (acc ++ [types])) =
           (if tokens.length == 1 then (PRes.reject : PRes (List Sel))
            else if tokens.isEmpty then .ok (acc ++ [types])
            else match parseInner tokens types with
              | .reject => .reject
-             | .raised => .raised
+             | .raised cls => .raised cls
              | .ok (types, rest) =>
                if rest.isEmpty then .ok (acc ++ [types]) else parseOuter m rest (acc ++ [types])) := by
         intro types tokens hlen
@@ -1972,7 +2021,7 @@ theorem parse_fuel_irrelevant (f1 f2 : Nat) (toks : List Tok) (acc : List Sel)
           · rename_i hne
             cases hpi : parseInner tokens types with
             | reject => rfl
-            | raised => rfl
+            | raised cls => rfl
             | ok r =>
               obtain ⟨t2, rest⟩ := r
               simp only
